@@ -122,11 +122,12 @@ def _long(draw):
         q = draw(st.integers(8, 21))
         base = draw(st.sampled_from([1 << q, 10 ** draw(st.integers(3, 6)), 3 * (1 << max(q - 2, 1))]))
         cands.append(base * draw(st.integers(1, 4)) + draw(st.sampled_from([0, 0, 0, -1, 1])))
-    # and always one event at one of the large round numbers below the length
+    # the large round numbers below the length
     major = [v for v in (1 << 12, 1 << 14, 1 << 16, 1 << 17, 1 << 18, 1 << 19, 1 << 20, 1 << 21, 10 ** 5, 10 ** 6, 2 * 10 ** 6)
              if v < n - 1]
-    if major:
-        cands.append(draw(st.sampled_from(major[-4:])) + draw(st.sampled_from([0, 0, -1, 1])))
+    # every one of them carries an event: on it (three times in five), or on the sample before / after it
+    for v in major:
+        cands.append(v + draw(st.sampled_from([0, 0, 0, -1, 1])))
     for _ in range(draw(st.integers(0, 6))):
         cands.append(draw(st.integers(1, n - 1)))
     ndim = draw(st.sampled_from([1, 1, 2]))
